@@ -18,7 +18,7 @@ def _events(tier, count):
 
 def subharnesses(tier):
     subs = []
-    worlds = [('T1', 1, 3)] if tier == 'quick' else \
+    worlds = [('T1', 1, 3), ('T2', 1, 3)] if tier == 'quick' else \
         [('T1', 1, 3), ('T2', 1, 3), ('T1', 2, 3), ('T1', 1, 4)]
     for topo, D, A in worlds:
         for count in (1, 2):
@@ -40,6 +40,20 @@ def subharnesses(tier):
                             'event': ev}
                     subs.append(('%s-D%d-A%d-n%d-%s-%s' % (
                         topo, D, A, count, g1.ptag(pl), g1.evtag(ev)), spec))
+                # members live in an allocation with a utilisation cap: those
+                # beyond it are unranked (removed if placed, never placed)
+                if count == 2:
+                    capped = [dict(a, alloc=['_default', 'cap'])
+                              for a in apps]
+                    spec = {'topo': topo, 'D': D, 'servers': [{}, {}],
+                            'allocs': [{'path': [], 'label': '_default'},
+                                       {'path': ['cap'], 'label': '_default',
+                                        'reserved': [5] * D, 'rank': 100,
+                                        'max_utilization': 1}],
+                            'apps': capped, 'igroups': {'g': count},
+                            'event': ['none']}
+                    subs.append(('%s-D%d-A%d-n%d-%s-capped' % (
+                        topo, D, A, count, g1.ptag(pl)), spec))
                 # third instance outside the group competes for capacity
                 apps2 = [dict(a) for a in apps]
                 if apps2[-1].get('place') is None:
